@@ -404,6 +404,7 @@ def run(ctx):
     cases += gen_wrap(ctx, 1500 if quick else 25000)
     cases += gen_wrap_nested(ctx, 800 if quick else 12000)
     cases += gen_outside(ctx, 1500 if quick else 30000)
+    inplace_text_sequences(ctx)
     for _, _, meta in cases:
         ctx.cover('kind:' + meta['kind'])
     # 1. oracle + model comparison on every callback event, configuration as generated.
@@ -448,11 +449,56 @@ def run(ctx):
             ctx.sample({'abbr': abbr, 'text': cfg.get('text'), 'kind': meta['kind'], 'output': r[1][:160] if r[0] == 'ok' else r})
 
 
+def inplace_text_sequences(ctx):
+    """`text` lines supplied as ONE list object that the caller edits in place between calls (an editor's buffer):
+    every call must use the lines the list holds at that moment."""
+    from emmet import expand
+    edits = [lambda L: L.append('gamma'), lambda L: L.__setitem__(0, 'ALPHA'), lambda L: L.pop(), lambda L: L.insert(1, '  '),
+             lambda L: L.extend(['x y', '$#', 'ul>li*2']), lambda L: L.clear(), lambda L: L.append('only')]
+    n = 0
+    for abbr in ('ul>li*', 'ul>li[title=$#]{[$#]}*', 'div>p*>b', 'ul>li'):
+        L = ['alpha', 'beta']
+        cfg = plain({'text': L})
+        cfg['text'] = L                     # the same object in every call
+        steps = []
+        for step in range(len(edits) + 1):   # first the whole sequence on the one list object ...
+            try:
+                got = expand(abbr, cfg)
+            except Exception as e:  # noqa
+                got = repr(e)
+            steps.append((list(L), got))
+            if step < len(edits):
+                edits[step](L)
+        for step, (snapshot, got) in enumerate(steps):   # ... then what each call should have produced
+            want = expand(abbr, plain({'text': list(snapshot)}))
+            n += 1
+            ctx.count_eval()
+            ctx.cover('wrap:list-edited-in-place')
+            nb = [l.strip() for l in snapshot if l.strip()]
+            bad = None
+            if got != want:
+                bad = 'with the caller\'s list object (holding %r at that call) the result is %r, with an equal fresh list %r' % (snapshot, got, want)
+            elif abbr == 'ul>li*' and nb and isinstance(got, str) and got.count('<li>') != len(nb):
+                bad = '%d non-blank lines, %d copies' % (len(nb), got.count('<li>'))
+            if bad:
+                ctx.property_failure('C04:list-edited-in-place:%s:%d' % (abbr, step),
+                                     'C04 expand(%r) with wrap lines held in one list edited in place between calls (call %d): %s' % (abbr, step, bad),
+                                     {'component': 'C04-inplace', 'abbr': abbr, 'step': step, 'why': bad})
+                break
+    ctx.cov['inplace_text_sequences'] = n
+
+
 def replay(ctx, obj):
     rp = obj.get('replay', {})
     if 'abbr' not in rp:
         print('replay names a broken obligation, no input: %s' % str(rp)[:300])
         return 1
+    if rp.get('component') == 'C04-inplace':
+        n0 = len(ctx.violations)
+        inplace_text_sequences(ctx)
+        bad = [v for v in ctx.violations[n0:]]
+        print('wrap lines in one list edited in place between calls: %s' % (bad[0]['what'] if bad else 'property holds'))
+        return 1 if bad else 0
     if rp.get('component') == 'text-tree':
         return atg.replay(rp)
     if rp.get('component') == 'C04expand':
